@@ -13,7 +13,7 @@ from .c16 import SOILS15
 
 PID = "C18"
 LEVEL = "model_checking"
-WITNESSES = ["deepened_profile", "not_deepened", "layered_soil", "texture_soil", "depth_interpolation", "thick_compartments_only", "non_uniform_thickness", "soil_object_reused", "independent_layer_map"]
+WITNESSES = ["deepened_profile", "not_deepened", "layered_soil", "texture_soil", "depth_interpolation", "thick_compartments_only", "non_uniform_thickness", "soil_object_reused", "independent_layer_map", "water_table_with_percentage_request"]
 NONTRIVIAL = ["deepened_profile", "layered_soil", "texture_soil", "depth_interpolation", "thick_compartments_only", "non_uniform_thickness", "soil_object_reused"]
 
 ZMAX = [0.5, 0.6, 1.0, 1.3, 1.5, 1.7, 1.8, 2.0, 2.3, 3.0]
@@ -110,6 +110,16 @@ def scenarios(tier, seed=0):
             continue
         for dz in ("deep30", "nonuni", "d30", "d12"):
             yield {"soil": f"L3_{t1}_{t2}", "dz": dz, "zmax": 1.0, "iwc": "PropLayer"}
+    # a water table below / inside the profile together with percentage and numeric specifications (the request is defined by the
+    # layer's own wilting point and field capacity; only compartments above the table are compared - below it the model saturates)
+    for sn in ("SandyLoam", "ClayLoam", "c2", "c3", "Paddy"):
+        for dz in ("d12", "deep30"):
+            for z in (0.6, 1.0, 2.3):
+                for kind in ("PctLayer", "PctDepth", "NumLayer", "PctLayerMixed"):
+                    for gw in (0.9, 1.8, 2.6):
+                        if q and (ZMAX.index(z) if z in ZMAX else 0) % 2 and gw == 2.6:
+                            continue
+                        yield {"soil": sn, "dz": dz, "zmax": z, "iwc": kind, "gw": gw}
     # a Soil object that an earlier model (with a shallower-rooted crop) has already initialised
     for si, (sn, ss) in enumerate(soils.items()):
         if ss["type"] == "ac_TunisLocal" or (q and si % 3):
@@ -142,6 +152,8 @@ def run(scn):
     spec["soil"] = ss
     spec["crop"]["kw"] = {"Zmax": scn["zmax"], "Zmin": min(0.3, scn["zmax"])}
     spec["iwc"] = iwc_spec(scn["iwc"], nl)
+    if scn.get("gw") is not None:
+        spec["gw"] = {"method": "Constant", "dates": [spec["start"]], "values": [float(scn["gw"])]}
     # reference: the user's soil before any model touched it
     ref_soil = S.make_soil(ss)
     ref_df = ref_soil.profile.ffill()
@@ -288,6 +300,10 @@ def run(scn):
             depths = np.append(depths, [bot[-1]])
             vals = np.append(vals, [vals[-1]])
         exp = np.interp(mid, depths, vals)
+    if scn.get("gw") is not None and th0.shape == exp.shape:
+        hit("water_table_with_percentage_request")
+        above = mid < float(scn["gw"]) - 1e-9
+        th0 = np.where(above, th0, exp)      # compartments at / below the table are saturated by the model: not part of the request
     if th0.shape != exp.shape or not np.allclose(th0, exp, atol=1e-9):
         i = int(np.argmax(np.abs(th0 - exp))) if th0.shape == exp.shape else -1
         bad("initial-water-content-as-requested", {"comp": i, "th": float(th0[i]) if i >= 0 else None, "centre": float(mid[i]) if i >= 0 else None}, {"expected": float(exp[i]) if i >= 0 else None}, kind=kind)
